@@ -289,7 +289,15 @@ ChildPlan World::OnSpawn(Kernel& kk, const std::string& cmd, bool console) {
     }
     if ((sv.deps_kind == 1 || sv.deps_kind == 2) && !partial && status == 0) {
       std::string d = DepfileEscape(sv.outs[0]) + ":";
-      for (auto& p : rs) d += " " + DepfileEscape(p);
+      for (auto& p : rs) {
+        // compilers spell the same file in several ways
+        std::string sp = p;
+        uint64_t style = Hash64(p, myseq) % 6;
+        if (style == 0) sp = "./" + p;
+        else if (style == 1) { size_t sl = p.find('/'); sp = sl == std::string::npos ? "././" + p : p.substr(0, sl) + "//" + p.substr(sl + 1); }
+        else if (style == 2) { size_t sl = p.find('/'); sp = sl == std::string::npos ? p : p.substr(0, sl) + "/./" + p.substr(sl + 1); }
+        d += " " + DepfileEscape(sp);
+      }
       d += "\n";
       k2.WriteFile(sv.depfile, d);
       k2.Trace(Ev::kChildEffect, c.pid, sv.id, sv.depfile);
